@@ -505,12 +505,12 @@ func runC03(c *Ctx) {
 				continue
 			}
 			g := pb.pathCond(lk.Block(), ci.Block())
-			_, counter := forAll(g, nil, func(e env, fv bool) bool { return !(fv && e.B["hit"] && e.B["canset"]) })
+			fb, fi := map[string]bool{}, map[string]bool{}
+			atomsOf(g, fb, fi)
+			_, counter := forAll(g, nil, func(e env, fv bool) bool { return !(fv && e.B["hit"] && (!fb["canset"] || e.B["canset"])) })
 			if counter != "" {
 				return false, "a descent is reachable on a memo hit: " + counter
 			}
-			fb, fi := map[string]bool{}, map[string]bool{}
-			atomsOf(g, fb, fi)
 			if !fb["hit"] {
 				return false, "the descent does not depend on the memo lookup"
 			}
